@@ -10,6 +10,8 @@ to the outputs of the real policy compiler.
   J refuses    <ctx> <entry> <policy> <Ok | Err:kind | PANIC> (no conforming output exists => not Ok)
   J compiles   <ctx> <policy> <Ok | Err:kind | PANIC>       (small sane policies must compile)
   J trlift     <entry> <policy> <unspendable key id | -> <library's lift of the descriptor | ERR:kind>
+  J lift       <target> <policy> - <library's lift of a compiled miniscript / bare, sh, wsh, sh(wsh) descriptor>
+  J desckind   <requested DescriptorCtx> <policy> <DescriptorType of what compile_to_descriptor returned>
   C sane       <ctx> <ast>                                  (model of `validate(&Ctx::SANE)`)
 -/
 import MsVerif.Driver.OpsMs
@@ -174,6 +176,17 @@ def opsCompile (t : Tables) (kind op : String) (args : List String) : Option Str
     if lifted.startsWith "ERR" then pure s!"bad:compiled-descriptor-does-not-lift({lifted})" else
     let q ← PolicyOps.parsePolicy lifted
     pure (if trLiftOk u P q then "ok" else "bad:lift-of-compiled-tr-differs-from-policy")
+  | "J", "lift", [_target, policy, _unsp, lifted] => do
+    let P ← PolicyOps.parseCPolicy policy
+    if lifted.startsWith "ERR" then pure s!"bad:compiled-output-does-not-lift({lifted})" else
+    let q ← PolicyOps.parsePolicy lifted
+    pure (if trLiftOk none P q then "ok" else "bad:lift-of-compiled-output-differs-from-policy")
+  | "J", "desckind", [kind, _policy, actual] =>
+    -- the descriptor is of the kind that was asked for (the TARGET context, not merely some context)
+    let want := match kind with
+      | "bare" => "Bare" | "sh" => "Sh" | "wsh" => "Wsh" | "shwsh" => "ShWsh"
+      | "tr-none" | "tr-unsp" => "Tr" | _ => "?"
+    some (if actual == want then "ok" else s!"bad:asked-for-{kind}-got-{actual}")
   | "C", "sane", [ctx, ast] => do
     let ctx ← parseCtx ctx
     let m ← parseAst ast
